@@ -46,9 +46,16 @@ WRITE_OPS = {"writeArr", "wrapSetitem", "wrapIadd", "ufuncOut", "setFlag"}
 # Heap.Op also has `arrBase` (`a.base`): navigation from any ndarray handle to the array it is a view of
 
 
-def _dom(n):
+def _dom(n, ndim=1):
+    """the canonical domain of a 1-D array of length n; 0-d sources live on the scalar domain"""
     import nifty.cl as ift
+    if ndim == 0:
+        return ift.DomainTuple.scalar_domain()
     return ift.DomainTuple.make(ift.UnstructuredDomain(n))
+
+
+def _sz(x):
+    return int(np.prod(x.shape, dtype=np.int64))
 
 
 def _root(x):
@@ -123,7 +130,10 @@ class Real:
         ret = None
         A, W, F = self.arrs, self.wraps, self.fields
         if k == "newArr":
-            A.append(np.array(op["vals"], dtype=np.float64))
+            if how == 1 and len(op["vals"]) == 1:
+                A.append(np.array(float(op["vals"][0])))        # a 0-d ndarray
+            else:
+                A.append(np.array(op["vals"], dtype=np.float64))
             ret = ["arr", len(A) - 1]
         elif k == "sliceArr":
             a = self._get(A, op["a"])
@@ -192,7 +202,13 @@ class Real:
             ret = ["wrap", len(W) - 1]
         elif k == "wrapSetitem":
             w = self._get(W, op["w"])
-            if how == 1 and op["i"] < w.shape[0]:
+            if w.ndim == 0:          # 0-d wrapper: the one entry is addressed as w[()]
+                if w.readonly or not w.val.flags.writeable:
+                    raise ValueError("assignment destination is read-only")
+                if op["i"] != 0:
+                    raise IndexError("index out of bounds")
+                w[()] = float(op["v"])
+            elif how == 1 and op["i"] < w.shape[0]:
                 w[op["i"]:op["i"] + 1] = float(op["v"])
             else:
                 w[op["i"]] = float(op["v"])
@@ -216,14 +232,14 @@ class Real:
             a = self._get(A, op["a"])
             if self._other_writable_alias(a):
                 self.guard_ok = False
-            d = _dom(op["n"])
+            d = _dom(op["n"], a.ndim if op["n"] == _sz(a) else 1)
             if how == 1:
                 f = ift.Field.from_raw(d, a)
             elif how == 2:
                 f = ift.makeField(d, a)
             elif how == 3:
                 f = ift.Field(d, AnyArray(a))
-            elif how == 4:
+            elif how == 4 and a.ndim:
                 f = ift.makeField(d[0], a)           # a bare Domain as domain description
             elif how == 5:
                 f = ift.makeField(ift.MultiDomain.make({"k": d}), {"k": a})["k"]       # sugar.makeField -> MultiField.from_raw
@@ -237,7 +253,7 @@ class Real:
             w = self._get(W, op["w"])
             if self._other_writable_alias(w.val):
                 self.guard_ok = False
-            d = _dom(op["n"])
+            d = _dom(op["n"], w.ndim if op["n"] == _sz(w) else 1)
             if how == 1:
                 f = ift.Field.from_raw(d, w)
             elif how == 2:
@@ -262,7 +278,7 @@ class Real:
             ret = self._new_field(f, k)
         elif k == "fieldCast":
             f0 = self._get(F, op["f"])
-            f = f0.cast_domain(_dom(f0.shape[0])) if how != 1 else f0.cast_domain(f0.domain[0])
+            f = f0.cast_domain(f0.domain) if (how != 1 or not f0.shape) else f0.cast_domain(f0.domain[0])
             ret = self._new_field(f, k)
         elif k == "fieldVal":
             ret = ["wrap", self._idx(W, self._get(F, op["f"]).val)]
@@ -445,17 +461,22 @@ def gen_history(rng, length, p_unguarded=0.12):
         if A:
             choices += [("writeArr", 4), ("setFlag", 1), ("arrBase", 2)]
         if any(a.ndim == 1 for a in A):
-            choices += [("sliceArr", 2), ("wrap", 3), ("fieldFromArr", 4)]
+            choices += [("sliceArr", 2)]
+        if A:
+            choices += [("wrap", 3), ("fieldFromArr", 4)]
         if W:
-            choices += [("wrapLock", 1), ("wrapVal", 1), ("wrapAsnumpy", 1), ("wrapGetitem", 3), ("wrapSame", 2),
+            choices += [("wrapLock", 1), ("wrapVal", 1), ("wrapAsnumpy", 1),
                         ("wrapSetitem", 4), ("wrapIadd", 3), ("ufuncOut", 3), ("wrapCopy", 1), ("fieldFromWrap", 3)]
+        if any(w.ndim == 1 for w in W):
+            choices += [("wrapGetitem", 3), ("wrapSame", 2)]
         if len(F) < 2:
             choices += [("fieldFull", 2)]
         if F:
             choices += [("fieldCast", 1), ("fieldVal", 3), ("fieldRaw", 3), ("fieldAsnumpy", 2), ("fieldValRw", 1),
-                        ("fieldAsnumpyRw", 1), ("fieldAdd", 1), ("fieldScale", 1), ("mkDiag", 1), ("mkAdder", 1),
-                        ("fieldFull", 1)]
-        if O and F:
+                        ("fieldAsnumpyRw", 1), ("fieldAdd", 1), ("fieldScale", 1), ("fieldFull", 1)]
+        if any(len(f.shape) == 1 for f in F):
+            choices += [("mkDiag", 1), ("mkAdder", 1)]      # makeOp of a scalar-domain field is a ScalingOperator: not in the model
+        if O and any(len(f.shape) == 1 for f in F):
             choices += [("applyOp", 1)]
         names = [c for c, _ in choices]
         k = rng.choices(names, weights=[w for _, w in choices])[0]
@@ -463,10 +484,17 @@ def gen_history(rng, length, p_unguarded=0.12):
         ri = rng.randrange
 
         def lenA(i):
-            return int(A[i].shape[0])
+            return _sz(A[i])
 
         def lenW(i):
-            return int(W[i].shape[0])
+            return _sz(W[i])
+
+        def pick_wrap1d():
+            idx = [i for i, w in enumerate(W) if w.ndim == 1]
+            hot = [i for i in idx if R._is_field_buf(W[i].val)]
+            return rng.choice(hot) if hot and rng.random() < 0.6 else rng.choice(idx)
+
+        F1 = [i for i, f in enumerate(F) if len(f.shape) == 1]
 
         # handles that alias a field are preferred targets for writes: that is where the property lives
         def pick_arr(any_dim=False):
@@ -479,7 +507,8 @@ def gen_history(rng, length, p_unguarded=0.12):
             return rng.choice(hot) if hot and rng.random() < 0.6 else ri(len(W))
 
         if k == "newArr":
-            op["vals"] = [ri(-9, 10) for _ in range(rng.choice([1, 2, 3, 3, 4]))]
+            op["vals"] = [ri(-9, 10) for _ in range(rng.choice([1, 1, 2, 3, 3, 4]))]
+            op["how"] = ri(2)           # how=1 with a single value: a 0-d ndarray
         elif k == "sliceArr":
             a = pick_arr()
             n = lenA(a)
@@ -505,13 +534,13 @@ def gen_history(rng, length, p_unguarded=0.12):
                 b = False     # stride-0 broadcast results (one memory cell behind n entries) are not re-enabled: outside the model
             op.update(a=a, b=b)
         elif k == "wrap":
-            op.update(a=pick_arr())
+            op.update(a=pick_arr(True))
         elif k in ("wrapLock", "wrapVal", "wrapAsnumpy", "wrapCopy"):
             op.update(w=pick_wrap())
         elif k == "wrapSame":
-            op.update(w=pick_wrap(), how=ri(4))
+            op.update(w=pick_wrap1d(), how=ri(4))
         elif k == "wrapGetitem":
-            w = pick_wrap()
+            w = pick_wrap1d()
             n = lenW(w)
             if rng.random() < 0.5:
                 op.update(w=w, lo=0, hi=n, how=ri(5))
@@ -524,23 +553,28 @@ def gen_history(rng, length, p_unguarded=0.12):
             op.update(w=w, i=ri(n) if n else 0, v=ri(-99, 100), how=ri(2))
         elif k == "wrapIadd":
             w = pick_wrap()
-            same = [j for j in range(len(W)) if lenW(j) in (lenW(w), 1)]
-            op.update(w=w, w2=rng.choice(same) if same and rng.random() < 0.9 else ri(len(W)))
+            nd_ = [j for j in range(len(W)) if W[j].ndim == W[w].ndim]     # () and (1,) do not mix in NumPy's in-place rules
+            same = [j for j in nd_ if lenW(j) in (lenW(w), 1)]
+            op.update(w=w, w2=rng.choice(same) if same and rng.random() < 0.9 else rng.choice(nd_))
         elif k == "ufuncOut":
             wo = pick_wrap()
-            same = [j for j in range(len(W)) if lenW(j) in (lenW(wo), 1)] or [wo]
+            nd_ = [j for j in range(len(W)) if W[j].ndim == W[wo].ndim]
+            same = [j for j in nd_ if lenW(j) in (lenW(wo), 1)] or [wo]
             full = [j for j in same if lenW(j) == lenW(wo)] or [wo]
             op.update(wx=rng.choice(full), wy=rng.choice(same), wout=wo, how=ri(2))
             if rng.random() < 0.07:
-                op["wy"] = ri(len(W))
+                op["wy"] = rng.choice(nd_)
         elif k == "fieldFromArr":
-            cands = [i for i, a in enumerate(A) if a.ndim == 1]
+            cands = [i for i, a in enumerate(A) if a.ndim == 1 or (a.ndim == 0 and not R._is_field_buf(a))]
             if not unguarded:
                 ok = [i for i in cands if not R._other_writable_alias(A[i])]
                 cands = ok or cands
-            a = rng.choice(cands)
-            n = lenA(a) if rng.random() < 0.93 else lenA(a) + 1
-            op.update(a=a, n=n, how=ri(7))
+            if not cands:
+                op = {"op": "newArr", "vals": [ri(-9, 10), ri(-9, 10)], "how": 0}
+            else:
+                a = rng.choice(cands)
+                n = lenA(a) if rng.random() < 0.93 else lenA(a) + 1
+                op.update(a=a, n=n, how=ri(7))
         elif k == "fieldFromWrap":
             cands = list(range(len(W)))
             if not unguarded:
@@ -551,21 +585,24 @@ def gen_history(rng, length, p_unguarded=0.12):
             op.update(w=w, n=n, how=ri(3))
         elif k == "fieldFull":
             op.update(n=rng.choice([1, 2, 3, 4]), v=ri(-9, 10), how=ri(4))
-        elif k in ("fieldCast", "fieldVal", "fieldRaw", "fieldAsnumpy", "fieldValRw", "fieldAsnumpyRw", "mkDiag",
-                   "mkAdder"):
+        elif k in ("mkDiag", "mkAdder"):
+            op.update(f=rng.choice(F1))
+        elif k in ("fieldCast", "fieldVal", "fieldRaw", "fieldAsnumpy", "fieldValRw", "fieldAsnumpyRw"):
             op.update(f=ri(len(F)))
             if k == "fieldCast":
                 op["how"] = ri(2)
         elif k == "fieldAdd":
             f = ri(len(F))
             same = [j for j in range(len(F)) if F[j].shape == F[f].shape]
-            op.update(f=f, g=rng.choice(same) if rng.random() < 0.9 else ri(len(F)), how=ri(2))
+            # a scalar-domain field and a length-1 field have different domains but the same length: never mixed
+            other = [j for j in range(len(F)) if len(F[j].shape) == len(F[f].shape)]
+            op.update(f=f, g=rng.choice(same) if rng.random() < 0.9 else rng.choice(other), how=ri(2))
         elif k == "fieldScale":
             op.update(f=ri(len(F)), c=ri(-3, 4), how=ri(2))
         elif k == "applyOp":
             o = ri(len(O))
             same = [j for j in range(len(F)) if F[j].domain is O[o][1].domain]
-            op.update(o=o, x=rng.choice(same) if same and rng.random() < 0.9 else ri(len(F)))
+            op.update(o=o, x=rng.choice(same) if same and rng.random() < 0.9 else rng.choice(F1))
         ops.append(op)
         R.run_step(op)
     return ops
@@ -580,6 +617,14 @@ def attack_matrix():
     for how in range(3):
         ctors.append(("fromWrap%d" % how, [{"op": "newArr", "vals": [0, 1, 2, 3]}, {"op": "wrap", "a": 0},
                                            {"op": "fieldFromWrap", "w": 0, "n": 4, "how": how}]))
+    for how in (0, 1, 2, 3, 5, 6):
+        # 0-d ndarray / 0-d AnyArray sources on the scalar domain, through every constructor
+        ctors.append(("zeroD%d" % how, [{"op": "newArr", "vals": [3], "how": 1}, {"op": "fieldFromArr", "a": 0, "n": 1, "how": how}]))
+    for how in range(3):
+        ctors.append(("zeroDwrap%d" % how, [{"op": "newArr", "vals": [3], "how": 1}, {"op": "wrap", "a": 0},
+                                            {"op": "fieldFromWrap", "w": 0, "n": 1, "how": how}]))
+    for how in range(7):
+        ctors.append(("size1_%d" % how, [{"op": "newArr", "vals": [3]}, {"op": "fieldFromArr", "a": 0, "n": 1, "how": how}]))
     for how in range(4):
         # the source is a still-writable VIEW whose base was locked before: lock() must protect the view object
         ctors.append(("viewOfLockedBase%d" % how, [{"op": "newArr", "vals": [0, 1, 2, 3]},
@@ -647,6 +692,10 @@ def attack_matrix():
             attacks.append([{"op": "mkAdder", "f": f}] +
                            [{"op": "writeArr", "a": a, "i": 2, "v": 85} for a in srcs])
             attacks.append([{"op": "fieldAsnumpy", "f": f}] + [{"op": "writeArr", "a": a, "i": 2, "v": 84} for a in srcs])
+        if len(R.fields[f].shape) == 0:
+            # scalar-domain fields: no slicing / re-wrapping / operators (0-d wrappers return scalars, makeOp a ScalingOperator)
+            attacks = [att for att in attacks if not any(o["op"] in ("wrapGetitem", "wrapSame", "mkDiag", "mkAdder", "applyOp")
+                                                         or (o["op"] == "wrapSetitem" and o.get("how")) for o in att)]
         for j, att in enumerate(attacks):
             out.append(dict(name=f"{name}/att{j}", ops=pre + att))
     return out
